@@ -71,6 +71,8 @@ var c06jsons = []string{
 	`{"é":true} x`, // trailing content: members applied, then rejected
 	`[1]`,          // not an object: nothing applied
 	` { "" : 0 , "a.b" : [ ] } `,
+	// another object for a name that already holds one: the new object replaces the old one, members and all
+	`{"zq":{"y":5},"a":{"k":1}}`, `{"zq":{"n":{"m":1}},"a":{"j":2}}`, `{"zq":{"n":{}},"a":{}}`,
 	// names that differ from the alphabet's only by case (ASCII, accented, and the Kelvin sign that folds to k)
 	`{"A":5,"a":6,"AB":7}`,
 	`{"\u00c9":1,"B":2,"\u212a":3,"k":4}`,
@@ -118,7 +120,12 @@ func c06randomOp(r *rng) c06op {
 	vals := c06values()
 	cells := c06cells()
 	keys := c06Alphabet[:6]
-	switch r.intn(9) {
+	switch r.intn(10) {
+	case 9:
+		if r.chance(1, 3) {
+			return c06op{kind: "cl"}
+		}
+		return c06op{kind: "clset", key: pick(r, []string{"zc1", "zc2", "a", "zc3"}), val: pick(r, vals)}
 	case 0:
 		return c06op{kind: "set", key: pick(r, keys), val: pick(r, vals)}
 	case 1:
@@ -372,11 +379,74 @@ func observeC06(row jsonline.Row, errc string) string {
 	return sb.String()
 }
 
-func runC06History(cw *caseWriter, ops []c06op) {
+func runC06History(cw *caseWriter, ops []c06op) { runC06HistoryFrom(cw, nil, ops) }
+
+// c06decl: one builder call of a template (a column, or a sub-row when sub is set).
+type c06decl struct {
+	name   string
+	format jsonline.Format
+	ty     interface{}
+	sub    []string // column names of a sub-row
+}
+
+// runC06HistoryFrom: a history on a row that a template created (decls: the builder calls, names possibly
+// declared more than once, as a column and as a sub-row). The initial state is described to the driver as the
+// SetValue calls the declarations amount to (first mention fixes the position, the last one the cell); those
+// described steps carry no observation ("skip"), every later step is observed as usual.
+func runC06HistoryFrom(cw *caseWriter, decls []c06decl, ops []c06op) {
 	row := jsonline.NewRow()
 	var opStrs, obs []string
+	if len(decls) > 0 {
+		t := jsonline.NewTemplate()
+		for _, d := range decls {
+			if d.sub != nil {
+				st := jsonline.NewTemplate()
+				for _, n := range d.sub {
+					st = st.WithAuto(n)
+				}
+				t = t.WithRow(d.name, st)
+			} else {
+				t = t.With(d.name, d.format, d.ty)
+			}
+		}
+		row = t.CreateRowEmpty()
+		for _, d := range decls {
+			cell, ok := row.GetValue(d.name)
+			if !ok {
+				cell = jsonline.NewValueAuto(nil)
+			}
+			opStrs = append(opStrs, "setv K:"+hx([]byte(d.name))+" "+valStr(cell))
+			obs = append(obs, "skip")
+		}
+		// the row as the template made it, before any operation
+		opStrs = append(opStrs, "nop created")
+		var ob string
+		if p := guard(func() { ob = observeC06(row, "-") }); p != "" {
+			ob = "e=- | PANIC while reading the row: " + strings.ReplaceAll(strings.ReplaceAll(p, "\t", " "), "\n", " ")
+		}
+		obs = append(obs, ob)
+	}
+	var clone jsonline.Row
 	kinds := map[string]bool{}
 	for _, op := range ops {
+		if op.kind == "cl" || op.kind == "clset" {
+			// a clone of the row is taken / grows: nothing the row itself should notice
+			guard(func() {
+				if op.kind == "cl" {
+					clone = jsonline.CloneRow(row)
+				} else if clone != nil {
+					clone.Set(op.key, op.val())
+				}
+			})
+			opStrs = append(opStrs, "nop "+op.kind)
+			var ob string
+			if p := guard(func() { ob = observeC06(row, "-") }); p != "" {
+				ob = "e=- | PANIC while reading the row: " + strings.ReplaceAll(strings.ReplaceAll(p, "\t", " "), "\n", " ")
+			}
+			obs = append(obs, ob)
+			cw.count("op:" + op.kind)
+			continue
+		}
 		var s, e string
 		if p := guard(func() { s, e = applyC06(row, op) }); p != "" {
 			// the op text is what applyC06 would have returned: it is computed before the call is made
@@ -437,9 +507,31 @@ func genC06(cw *caseWriter, seed uint64, tier string) {
 		}
 		runC06History(cw, ops)
 	}
+	// rows made by templates — 1 to 9 columns, names declared more than once, as a column and as a sub-row in
+	// either order (what jl does for every YAML column with nested columns) — then clones taken and grown between
+	// the operations on the row
+	vals := c06values()
+	declSets := [][]c06decl{
+		{{name: "a", format: jsonline.Numeric, ty: int8(0)}, {name: "a", sub: []string{"x", "y"}}},
+		{{name: "a", sub: []string{"x"}}, {name: "a", format: jsonline.String}, {name: "b", format: jsonline.Auto}},
+		{{name: "a", format: jsonline.Auto}, {name: "b", format: jsonline.Hidden}, {name: "a", format: jsonline.String}},
+		{{name: "ab", sub: []string{"x"}}, {name: "a", format: jsonline.Auto}, {name: "ab", sub: []string{"y", "z"}}, {name: "", format: jsonline.Auto}},
+		{{name: "a", format: jsonline.Auto}, {name: "b", format: jsonline.Auto}, {name: "é", format: jsonline.Auto}},
+		{{name: "a", format: jsonline.Auto}, {name: "b", format: jsonline.Auto}, {name: "ab", format: jsonline.Auto}, {name: "", format: jsonline.Auto}, {name: "zz", format: jsonline.Numeric}},
+		{{name: "a", format: jsonline.Auto}},
+		{{name: "a", format: jsonline.Auto}, {name: "b", sub: []string{"x"}}, {name: "b", format: jsonline.Auto}, {name: "b", sub: []string{"x"}}, {name: "é", format: jsonline.Auto}, {name: "a.b", format: jsonline.Auto}, {name: "zz", format: jsonline.Auto}},
+	}
+	for _, ds := range declSets {
+		for k := 0; k < 6; k++ {
+			ops := []c06op{{kind: "cl"}, c06randomOp(r), {kind: "clset", key: "zc1", val: vals[1]}, {kind: "set", key: "n1", val: vals[2]}, {kind: "clset", key: "zc2", val: vals[1]}}
+			for j := r.intn(10); j > 0; j-- {
+				ops = append(ops, c06randomOp(r))
+			}
+			runC06HistoryFrom(cw, ds, ops)
+		}
+	}
 	// rows that grow past the sizes where a container might change its representation (8, 16, 32, 64 keys):
 	// keys enter through every mutator, then existing keys are set, imported and addressed by position again
-	vals := c06values()
 	for _, total := range []int{9, 17, 33, 70} {
 		var ops []c06op
 		for k := 0; k < total; k++ {
